@@ -80,6 +80,8 @@ class ScriptEnv:
     self.suggest_calls = 0
     self.stop_calls = 0
     self.factory_calls = 0
+    self.gate = None          # threading.Event: when set, policy.suggest blocks on it (C08 in-flight scenarios)
+    self.entered = None       # threading.Event signalled when the policy is inside suggest
     self.label_seq = None     # when an int: suggestions are labelled from this counter instead of max_trial_id
 
   def reset(self):
@@ -124,6 +126,12 @@ class ScriptedPolicy(pythia.Policy):
   def suggest(self, request):
     e = self._env
     e.suggest_calls += 1
+    if e.gate is not None:
+      gate = e.gate
+      e.gate = None           # only the first computation is held
+      if e.entered is not None:
+        e.entered.set()
+      gate.wait(timeout=20)
     if e.fail_suggest:
       raise _EXC[e.fail_suggest]('scripted failure in suggest')
     k = 0 if e.deliver_zero else max(0, request.count + e.delta)
